@@ -1,4 +1,5 @@
 import Ivg.Lemmas.Codec
+import Ivg.Lemmas.Quantize
 import Ivg.Gen.Tie.DrawOps
 import Ivg.Gen.Tie.Magic
 import Ivg.Obligations
@@ -16,8 +17,8 @@ an error, never read past the end."
 
 The theorems below are about the executable model (`Ivg.Enc.*`, `Ivg.Dec.*`), which the differential
 suite ties to /repo.  Structural (S) and bit-level (B) clauses are proved in full, and so are the
-float-semantic (F) clauses about reals and coordinates; see the end of the file for the clauses
-(zero-to-one precision, angle normalisation, `quantize`) that are NOT proved here.
+float-semantic (F) clauses about reals, coordinates and `quantize`; see the end of the file for the
+clauses (zero-to-one precision, angle normalisation) that are NOT proved here.
 
 Each implication is followed by an `example` that exhibits a concrete instance of its hypotheses
 (non-vacuity).
@@ -364,6 +365,49 @@ theorem arcflags_roundtrip (la sw : Bool) (rest : Bytes) :
       some (fl, 1, rest) ∧ (fl % 2 != 0) = la ∧ (fl / 2 % 2 != 0) = sw :=
   arcFlags_roundtrip la sw rest
 
+/-! ## `quantize`: low-resolution coordinates become the nearest multiple of 1/64
+
+`Enc.quantize false f = float32(floor(float64(f)*64 + 0.5)) / 64` under the float guard
+`-128 ≤ f < 128`.  Proved in `Ivg/Lemmas/Quantize.lean` through the five float64/float32 stages
+(`float64(f)` exact, `*64` exact, `+0.5` exact when `|64 f| ≥ 1/2` and otherwise rounding to something
+in (0,1), `floor`, `float32(·)` of an integer exact, `/64` exact). -/
+
+/-- Clause "low-resolution coordinates in [-128,128) become the nearest multiple of 1/64" (ties up):
+    for EVERY float32 satisfying the model's guard (normal, subnormal or zero) the result is
+    `float32(k)/64` with `k = ⌊64·f + 1/2⌋`.  The condition is stated on the exact integer
+    `Quant.scaled f = f·2^149`: `k·2^150 ≤ 128·(f·2^149) + 2^149 < (k+1)·2^150`, which is
+    `k ≤ 64·f + 1/2 < k+1`, i.e. `64·f − 1/2 < k ≤ 64·f + 1/2`. -/
+theorem quantize_nearest (f : F32) (h1 : F32.ofInt (-128) ≤ f) (h2 : f < F32.ofInt 128) :
+    ∃ k : Int, -8192 ≤ k ∧ k ≤ 8192 ∧
+      Enc.quantize false f = F32.ofInt k / F32.ofInt 64 ∧
+      k * 2^150 ≤ 128 * Quant.scaled f + 2^149 ∧ 128 * Quant.scaled f + 2^149 < (k + 1) * 2^150 :=
+  Quant.quantize_nearest f h1 h2
+-- the F1 witness of DESIGN.md (x·64 = 0.49999997) now goes to 0, and the top of the range to 128.0
+example : F32.ofInt (-128) ≤ (⟨0x3bffffff⟩ : F32) ∧ (⟨0x3bffffff⟩ : F32) < F32.ofInt 128 := by decide
+set_option maxRecDepth 100000 in
+example : Enc.quantize false ⟨0x3bffffff⟩ = ⟨0⟩ ∧ Enc.quantize false ⟨0x42fffffe⟩ = F32.ofInt 128 := by
+  decide +kernel
+-- `scaled` is the value times 2^149: 1.0 ↦ 2^149, the smallest subnormal ↦ 1, -1.5 ↦ -3·2^148
+example : Quant.scaled ⟨0x3f800000⟩ = 2^149 ∧ Quant.scaled ⟨0x00000001⟩ = 1 ∧
+    Quant.scaled ⟨0xbfc00000⟩ = -3 * 2^148 := by decide
+
+/-- High-resolution mode, and values outside the guard (NaN, ±Inf, |f| > 128, f = 128), are left alone. -/
+theorem quantize_unchanged (f : F32) :
+    Enc.quantize true f = f ∧
+    (¬ (F32.ofInt (-128) ≤ f ∧ f < F32.ofInt 128) → Enc.quantize false f = f) :=
+  ⟨Quant.quantize_hi f, Quant.quantize_out_of_range f⟩
+example : ¬ (F32.ofInt (-128) ≤ F32.ofInt 128 ∧ F32.ofInt 128 < F32.ofInt 128) := by decide
+
+/-- The quantised value always takes a 1- or 2-byte coordinate form, except 128.0 (which the guard
+    lets through for inputs in (127.9921875, 128)). -/
+theorem quantize_short (f : F32) (h1 : F32.ofInt (-128) ≤ f) (h2 : f < F32.ofInt 128) :
+    (Enc.encodeCoordinate (Enc.quantize false f)).length ≠ 4 ∨ Enc.quantize false f = F32.ofInt 128 :=
+  Quant.quantize_short f h1 h2
+
+/-- Quantising is idempotent, bit for bit. -/
+theorem quantize_idem (f : F32) :
+    Enc.quantize false (Enc.quantize false f) = Enc.quantize false f := Quant.quantize_idem f
+
 /-!
 ## Clauses NOT proved in this file (documented gaps; covered by the exhaustive differential tier)
 
@@ -375,13 +419,7 @@ Full-strength statements that remain open (`val` = the real value of a finite fl
   (the decoded value is `float32(u/126)/120` resp. `float32(u)/15120`).  Missing: an error bound for
   one rounding of `*` and one of `/` (monotonicity of round-to-nearest-even on the soft-float).
 * `angle_mod1`: `¬ f.isNaN ∧ expo f ≠ 255 → val (angleNorm f) = round32 (val f - ⌊val f⌋)`; `angle_roundtrip`
-  is relative to `angleNorm`.  Missing: the float64 lemmas (`F64.ofF32` exact, `floor`, `-`, `toF32`).
-* `quantize_nearest`: `F32.ofInt (-128) ≤ f ∧ f < F32.ofInt 128 →
-  ∃ k : Int, quantize false f = F32.ofInt k / F32.ofInt 64 ∧ 64·val f - 1/2 < k ∧ k ≤ 64·val f + 1/2`.
-  Not addressed (needs the same float64 lemmas plus the rounding of `+ 0.5`).  What IS proved: whatever
-  `quantize` returns, if it is `==` to a multiple of 1/64 in [-128, 128) it is written in ≤ 2 bytes and
-  read back exactly, otherwise in 4 bytes within 30-bit precision (`coord_short_iff`, `coord_short_equal`,
-  `coord_long`).
+  is relative to `angleNorm`.
 -/
 
 end Ivg.Props.C08
@@ -406,4 +444,6 @@ end Ivg.Props.C08
   Ivg.Props.C08.coord_short_equal, Ivg.Props.C08.reencode_real, Ivg.Props.C08.reencode_coord,
   Ivg.Props.C08.roundtrip_idempotent, Ivg.Props.C08.nreg_instruction_roundtrip,
   Ivg.Props.C08.arcflags_roundtrip,
+  Ivg.Props.C08.quantize_nearest, Ivg.Props.C08.quantize_unchanged, Ivg.Props.C08.quantize_short,
+  Ivg.Props.C08.quantize_idem,
   Ivg.Gen.Tie.drawOps_tie, Ivg.Gen.Tie.magic_tie]
